@@ -550,6 +550,12 @@ class GF2:
                 sk = tuple(self.alias_chain(s_op)) if is_place(s_op) else ()
                 ek = tuple(self.alias_chain(e_op) + list(self.len_aliases(st, e_op))) if is_place(e_op) else ()
                 st.rel.add(("RANGE", k, sk, ek, self._val(st, s_op), self._val(st, e_op), incl))
+            elif rv.get("tup"):
+                # `let (list, start) = match .. { .. => (l, 1), .. => (m, 2) }`: the fields of the tuple keep their values
+                for i, o in enumerate(rv["ops"]):
+                    v = self._val(st, o)
+                    if v is not None and not v.is_top():
+                        st.iv[("P", "_%d.%d" % (l, i))] = v
             return
         if newv is not None and not newv.is_top():
             cur = st.iv.get(k)
